@@ -27,7 +27,11 @@ Results other than `ok`:
                   binder state after the 4th pass is used whether or not it is a fixpoint; 3 = isinstance on a
                   union drops an item unrelated to the tested class although the program has a common subclass; 4 = a frame
                   merge keeps the enclosing type because no option is flagged `from_assignment`, although one of them
-                  carries a type outside it (a narrowing after an assignment, captured at a break/continue)
+                  carries a type outside it (a narrowing after an assignment, captured at a break/continue);
+                  5 = the state of an `except` / `finally` clause (built from the states after assignments) does
+                  not cover a state an exception / return / jump really occurs in (not observed on the unchanged
+                  rules); 6 = a `break` / `continue` passes through a `finally` clause that changes a local: the
+                  loop exit keeps the state recorded at the jump
   `stuck k`       a defensive check failed (a merged type is not above a branch type, a declaration meets an
                   already narrowed local); never observed — it keeps the proof independent of binder invariants
   `fuel`          recursion budget exhausted
@@ -427,21 +431,34 @@ end
 /-! ## Statements -/
 
 /-- result of checking a statement: the state when control falls through (`none` = it cannot), the probe
-    records, and the states at the `break` / `continue` statements not yet consumed by a loop
-    (`binder.allow_jump` to `break_frames[-1]` / `continue_frames[-1]`) -/
+    records, the states at the `break` / `continue` statements not yet consumed by a loop
+    (`binder.allow_jump` to `break_frames[-1]` / `continue_frames[-1]`), and for try statements:
+    `snaps` — the states right after every assignment (`assign_type` → `allow_jump` to every enclosing try frame),
+    from which mypy builds the state of `except` / `finally` clauses;
+    `excs`, `rets` — the states at every point that may raise / at every `return` (what a handler / a finally
+    clause can really meet; only used by defensive checks, mypy does not compute them) -/
 structure SRes where
   out : Option Env
   recs : Recs
   brks : List Env := []
   conts : List Env := []
+  excs : List Env := []
+  rets : List Env := []
+  snaps : List Env := []
+
+/-- the second of two statements run in sequence / side by side: collect everything -/
+def SRes.join (a b : SRes) (out : Option Env) : SRes :=
+  { out := out, recs := a.recs ++ b.recs, brks := a.brks ++ b.brks, conts := a.conts ++ b.conts,
+    excs := a.excs ++ b.excs, rets := a.rets ++ b.rets, snaps := a.snaps ++ b.snaps }
 
 /-- result of one pass over a loop body -/
 structure Pass where
   next : Env            -- the loop frame after the pass
   changed : Bool        -- `binder.last_pop_changed`
   exit : Option Env     -- the loop frame narrowed by the negated condition
+  body : SRes           -- the body's result (its `brks` leave the loop; `excs`/`rets`/`snaps` pass through)
   recs : Recs
-  brks : List Env       -- states at `break`s of the body
+  head : Env            -- the loop frame the pass started from (where the condition is evaluated)
 
 /-- `accept_loop`: at most `i` passes; `pass L` checks condition and body from the loop frame `L`;
     the result is the last pass -/
@@ -453,6 +470,24 @@ def loopIter (P : Prog) (decl : List Ty) (pass : Env → TC Pass) : Nat → Env 
     else do
       req (envLe P decl p.next L) (.stuck 3)
       pure p
+
+/-- the statement assigns some local (then a `finally` clause made of it changes the state a pending jump saw) -/
+def assignsLocals : Stmt → Bool
+  | .decl _ _ => true
+  | .assign _ _ => true
+  | .infer _ _ => true
+  | .ite _ t e => assignsLocals t || assignsLocals e
+  | .while _ b => assignsLocals b
+  | .seq a b => assignsLocals a || assignsLocals b
+  | .tryS b _ h els fin _ => assignsLocals b || assignsLocals h || assignsLocals els || assignsLocals fin
+  | _ => false
+
+def envsLe (P : Prog) (decl : List Ty) (l : List Env) (H : Env) : Bool := l.all fun Γ => envLe P decl Γ H
+
+def optList (o : Option Env) : List Env :=
+  match o with
+  | some Γ => [Γ]
+  | none => []
 
 def tcS : Nat → Ctx → Option Env → Stmt → TC SRes
   | 0, _, _, _ => .error .fuel
@@ -467,14 +502,14 @@ def tcS : Nat → Ctx → Option Env → Stmt → TC SRes
         req (lookup x Γ).isNone (.stuck 4)
         let r ← tcE n C Γ false false e
         req (subTy C.P r.ty Tx) (.type 8)
-        pure { out := some Γ, recs := r.recs }
+        pure { out := some Γ, recs := r.recs, excs := [Γ] }
     | .assign x e =>
       match C.decl[x]? with
       | none => .error (.type 1)
       | some Tx => do
         let r ← tcE n C Γ false false e
         req (subTy C.P r.ty Tx) (.type 8)
-        pure { out := some (bind Γ x r.ty true), recs := r.recs }
+        pure { out := some (bind Γ x r.ty true), recs := r.recs, excs := [Γ], snaps := [bind Γ x r.ty true] }
     | .infer x e =>
       -- `infer_variable_type`: the variable gets the type of the initialiser; the term carries that type in the
       -- declaration table and the checker verifies it (a mismatch, or a `None` initialiser — a partial type —
@@ -485,32 +520,34 @@ def tcS : Nat → Ctx → Option Env → Stmt → TC SRes
         req (lookup x Γ).isNone (.stuck 4)
         let r ← tcE n C Γ false false e
         req (!(r.ty == [.none]) && subTy C.P r.ty Tx && subTy C.P Tx r.ty) (.unsupported 7)
-        pure { out := some Γ, recs := r.recs }
+        pure { out := some Γ, recs := r.recs, excs := [Γ] }
     | .setAttr o f e => do
       req (!implicitAttrDef C o f) (.unsupported 6)
       let ro ← tcE n C Γ false false o
       let re ← tcE n C Γ false false e
       req (!ro.ty.isEmpty) (.stuck 12)
       let ts ← attrTys C.P f ro.ty
-      if ts.all (fun T => subTy C.P re.ty T) then pure { out := some Γ, recs := ro.recs ++ re.recs }
+      if ts.all (fun T => subTy C.P re.ty T) then pure { out := some Γ, recs := ro.recs ++ re.recs, excs := [Γ] }
       else if subTy C.P re.ty (joinResults C.P ts) then .error (.hole 1)
       else .error (.type 8)
     | .expr e => do
       let r ← tcE n C Γ true false e
-      pure { out := some Γ, recs := r.recs }
+      pure { out := some Γ, recs := r.recs, excs := [Γ] }
     | .ret e => do
       let r ← tcE n C Γ (C.ret == [.none]) false e
       req (subTy C.P r.ty C.ret) (.type 9)
-      pure { out := none, recs := r.recs }
+      pure { out := none, recs := r.recs, excs := [Γ], rets := [Γ] }
     | .brk => pure { out := none, recs := [], brks := [Γ] }
     | .cont => pure { out := none, recs := [], conts := [Γ] }
+    | .raise _ => pure { out := none, recs := [], excs := [Γ] }
     | .ite c t e => do
       let rc ← tcE n C Γ false true c
       req (rc.ty == [.bool] || isTruthVar c) (.unsupported 3)
       let rt ← tcS n C (pushMap Γ false rc.yes) t
       let re ← tcS n C (pushMap Γ false rc.no) e
       let m ← mergeEnvs C.P C.decl Γ [rt.out, re.out]
-      pure { out := m.1, recs := rc.recs ++ rt.recs ++ re.recs, brks := rt.brks ++ re.brks, conts := rt.conts ++ re.conts }
+      let j := rt.join re m.1
+      pure { j with recs := rc.recs ++ j.recs, excs := Γ :: j.excs }
     | .while c b => do
       let p ← loopIter C.P C.decl (fun L => do
           let rc ← tcE n C L false true c
@@ -522,15 +559,51 @@ def tcS : Nat → Ctx → Option Env → Stmt → TC SRes
           let m2 ← mergeEnvs C.P C.decl L (some L :: m1.1 :: rb.conts.map some)
           match m2.1 with
           | none => .error (.stuck 5)
-          | some L' => pure { next := L', changed := m2.2, exit := pushMap L' true rc.no, recs := rc.recs ++ rb.recs, brks := rb.brks })
+          | some L' => pure { next := L', changed := m2.2, exit := pushMap L' true rc.no, body := rb,
+                              recs := rc.recs ++ rb.recs, head := L })
         4 Γ
       -- leaving the loop frame: the negated condition or a `break`
-      let m ← mergeEnvs C.P C.decl Γ (p.exit :: p.brks.map some)
-      pure { out := m.1, recs := p.recs }
+      let m ← mergeEnvs C.P C.decl Γ (p.exit :: p.body.brks.map some)
+      pure { out := m.1, recs := p.recs, excs := p.head :: p.body.excs, rets := p.body.rets, snaps := p.body.snaps }
     | .seq a b => do
       let ra ← tcS n C (some Γ) a
       let rb ← tcS n C ra.out b
-      pure { out := rb.out, recs := ra.recs ++ rb.recs, brks := ra.brks ++ rb.brks, conts := ra.conts ++ rb.conts }
+      pure (ra.join rb rb.out)
+    | .tryS b kinds h els fin hasFin => do
+      req (!kinds.isEmpty) (.unsupported 9)
+      let rb ← tcS n C (some Γ) b
+      -- the handler frame: update_from_options over the state at try entry and the state after every assignment
+      -- of the body (nested statements included)
+      let mh ← mergeEnvs C.P C.decl Γ (some Γ :: rb.snaps.map some)
+      match mh.1 with
+      | none => .error (.stuck 6)
+      | some H => do
+        -- whatever state an exception can really be raised in must be covered by it
+        req (envsLe C.P C.decl rb.excs H) (.hole 5)
+        let rh ← tcS n C (some H) h
+        let re ← tcS n C rb.out els
+        -- normal exits: the end of the else clause (or of the body), the end of the handler
+        let mN ← mergeEnvs C.P C.decl Γ [re.out, rh.out]
+        let j := (rb.join rh none).join re none
+        if !hasFin then pure { j with out := mN.1 }
+        else do
+          -- the finally clause is checked twice.  First for every abnormal exit: try entry, unhandled exception,
+          -- and the state after every assignment of body, handler and else clause …
+          let mA ← mergeEnvs C.P C.decl Γ (some Γ :: some H :: j.snaps.map some)
+          match mA.1 with
+          | none => .error (.stuck 6)
+          | some A => do
+            req (envsLe C.P C.decl (j.excs ++ j.rets ++ j.brks ++ j.conts) A) (.hole 5)
+            let fA ← tcS n C (some A) fin
+            -- … a `break` / `continue` that passes through the clause keeps the state recorded at the jump:
+            -- sound only if the clause leaves every such state as it found it
+            req ((j.brks.isEmpty && j.conts.isEmpty) || !assignsLocals fin) (.hole 6)
+            -- … then for the exits that fall through; only this pass determines the state afterwards
+            let fN ← tcS n C mN.1 fin
+            pure { out := fN.out, recs := j.recs ++ fA.recs ++ fN.recs,
+                   brks := j.brks ++ fA.brks ++ fN.brks, conts := j.conts ++ fA.conts ++ fN.conts,
+                   excs := optList fA.out ++ fA.excs ++ fN.excs, rets := optList fA.out ++ fA.rets ++ fN.rets,
+                   snaps := j.snaps ++ fA.snaps ++ fN.snaps }
 
 /-! ## Definitions -/
 
@@ -547,6 +620,9 @@ def truthVarsS : Bool → Stmt → List (Nat × Bool)
   | l, .ite c t e => (truthVarsE c).map (·, l) ++ truthVarsS l t ++ truthVarsS l e
   | _, .while c b => (truthVarsE c).map (·, true) ++ truthVarsS true b
   | l, .seq a b => truthVarsS l a ++ truthVarsS l b
+  | l, .tryS b _ h els fin _ =>
+    -- a finally clause is checked twice: a test in it counts as repeated
+    truthVarsS l b ++ truthVarsS l h ++ truthVarsS l els ++ truthVarsS true fin
   | _, _ => []
 
 def nodupNat : List Nat → Bool
